@@ -1834,7 +1834,13 @@ func (s *SelectStatement) String() string {
 	case NoFill:
 		_, _ = buf.WriteString(" fill(none)")
 	case NumberFill:
-		_, _ = buf.WriteString(fmt.Sprintf(" fill(%v)", s.FillValue))
+		if v, ok := s.FillValue.(float64); ok {
+			// Print a float with its decimal point so that it parses back
+			// as a float and not as an integer.
+			_, _ = buf.WriteString(" fill(" + (&NumberLiteral{Val: v}).String() + ")")
+		} else {
+			_, _ = buf.WriteString(fmt.Sprintf(" fill(%v)", s.FillValue))
+		}
 	case LinearFill:
 		_, _ = buf.WriteString(" fill(linear)")
 	case PreviousFill:
